@@ -354,6 +354,23 @@ def _convert_condbr(
     parent = op.parent_block()
     assert parent is not None
     current_block = block_map[parent]
+    if then_block is else_block:
+        # A phi node must have the same value for both edges coming from one block
+        cond = val_map[op.cond]
+        for arg, then_val, else_val in zip(
+            then_block.args, op.then_arguments, op.else_arguments
+        ):
+            phi = val_map[arg]
+            assert isinstance(phi, PhiInstr)
+            val = (
+                val_map[then_val]
+                if then_val is else_val
+                else builder.select(cond, val_map[then_val], val_map[else_val])
+            )
+            phi.add_incoming(val, current_block)
+            phi.add_incoming(val, current_block)
+        builder.cbranch(cond, block_map[then_block], block_map[else_block])
+        return
     for arg, val in zip(then_block.args, op.then_arguments):
         phi = val_map[arg]
         assert isinstance(phi, PhiInstr)
